@@ -170,6 +170,19 @@ Theorem C20_response_function_of_request :
 Proof. exact response_function_of_request. Qed.
 Print Assumptions C20_response_function_of_request.
 
+(* HEAD: same status line and Content-Type as the corresponding GET, empty body
+   (both for framework errors; the last-resort page is handled the same way by
+   drop_body in corr_C20). *)
+Theorem C20_head_response_has_no_body :
+  forall (isp : N -> bool) (q : request),
+    match respond_req isp (with_head q false), respond_req isp (with_head q true) with
+    | Resp st ct _, Resp st' ct' b' => st' = st /\ ct' = ct /\ b' = []
+    | KeyErr, KeyErr => True
+    | _, _ => False
+    end.
+Proof. exact head_response. Qed.
+Print Assumptions C20_head_response_has_no_body.
+
 (* OBSERVATION, NOT A VIOLATION OF C20 (C20 asks of the JSON body only that it be
    valid JSON): default_error_handler's JSON branch has no debug switch, so
    unlike the HTML page (C20_no_debug_leak) the JSON body carries repr(exception)
